@@ -40,6 +40,18 @@ PROPS["C19"] = dict(
              desc="write_chunk x k then read back (string or raw form chosen symbolically): identical bytes, eof() exact",
              tiers=T(quick=dict(defs=dict(VERIF_K=2), split=[[0, 1, 4], [0, 3, 4]], unwind=40, timeout=600, bounds="2 chunks, lengths from {0,1,4}x{0,3,4}, symbolic bytes"),
                      thorough=dict(defs=dict(VERIF_K=3), split=[[0, 1, 2, 3, 4]] * 3, unwind=40, timeout=1800, bounds="3 chunks, every length combination 0..4, symbolic bytes"))),
+        dict(id="C19.c", harness="C19_archive.cpp", entry="h_c19c_traits_roundtrip", cut=[STRING_REALLOC],
+             desc="archive_traits<vector<int>>, <std::string>, <int>: load(save(x)) == x and the archive is fully consumed",
+             tiers=T(quick=dict(split=[[0, 1, 2]], unwind=28, timeout=900, bounds="vector of 0..2 symbolic ints, string of 0..2 symbolic bytes, symbolic int"))),
+        dict(id="C19.d1", harness="C19_archive.cpp", entry="h_c19d_vector_int", cut=[STRING_REALLOC],
+             desc="archive_traits<std::vector<int>>::load on arbitrary bytes: throws or loads elements that fit in the archive; no access outside archive or vector storage",
+             tiers=T(quick=dict(defs=dict(VERIF_N=18), unwind=28, timeout=900, bounds="archive image of symbolic length 0..18, arbitrary bytes"))),
+        dict(id="C19.d2", harness="C19_archive.cpp", entry="h_c19d_vector_short", cut=[STRING_REALLOC],
+             desc="archive_traits<std::vector<short>>::load on arbitrary bytes (same)",
+             tiers=T(quick=dict(defs=dict(VERIF_N=18), unwind=28, timeout=900, bounds="archive image of symbolic length 0..18, arbitrary bytes"))),
+        dict(id="C19.d3", harness="C19_archive.cpp", entry="h_c19d_string", cut=[STRING_REALLOC],
+             desc="archive_traits<std::string>::load on arbitrary bytes (same)",
+             tiers=T(quick=dict(defs=dict(VERIF_N=18), unwind=28, timeout=900, bounds="archive image of symbolic length 0..18, arbitrary bytes"))),
     ],
 )
 
@@ -264,12 +276,19 @@ PROPS["C01"] = dict(
              drop=["_ZN6cppcms4impl10string_map3addEPKcS3_"], roots=["verif_env_add"], models=["stubs_c02.c"],
              desc="fastcgi::parse_pairs/read_len: decoding the FastCGI name-value encoding (1-byte and 4-byte length forms, chosen symbolically per field) returns exactly the encoded pairs in order",
              tiers=T(quick=dict(split=[[1, 3], [0, 2]], unwind=22, unwindset={"F__ZN6cppcms4impl3cgi7fastcgi11parse_pairsEv.0": 4, "verif_memcpy.0": 6, "F__ZN6cppcms4impl11string_pool3addEPKcm.0": 5, "F__ZL15cstrlen_boundedPKh.0": 6}, timeout=900, bounds="first pair: name length in {1,3}, value length in {0,2}, symbolic bytes; second pair fixed; each of 4 length fields in either form"))),
+        dict(id="C01.d", harness="C01_fastcgi.cpp", entry="h_c01d_record_reassembly", ctors=False, clang_flags=["-fno-inline"],
+             desc="fastcgi::non_blocking_read_record: a record is taken from the read cache only when header, content and padding are all present; exactly the content is appended to body_, padding skipped, cursors stay inside the cache; otherwise nothing changes (also C02: no access outside cache_)",
+             tiers=T(quick=dict(split=[[0, 2]], unwind=20, timeout=900, bounds="16-byte cache with arbitrary bytes and arbitrary cursors 0<=start<=end<=16; 0 or 2 bytes already in body_"))),
         dict(id="C01.e", harness="C02_scgi.cpp", entry="h_c01e_scgi_pairs", ctors=False, clang_flags=["-fno-inline"],
              drop=["_ZN6cppcms4impl10string_map3addEPKcS3_"], roots=["verif_env_add"], models=["stubs_c02.c"],
              desc="scgi::on_headers_chunk_read: a well-formed netstring header block delivers exactly its NUL-separated pairs, in order",
              tiers=T(quick=dict(split=[[1, 3], [0, 2]], unwind=22, unwindset={SCGI_WALK: 5, "X_strlen.0": 6, "verif_memcpy.0": 6, "F__ZL15cstrlen_boundedPKh.0": 6}, timeout=900, bounds="first pair: name length in {1,3}, value length in {0,2}, symbolic bytes; second pair fixed"))),
     ],
 )
+PROPS["C02"]["obligations"].append(
+        dict(id="C02.d", harness="C01_fastcgi.cpp", entry="h_c01d_record_reassembly", ctors=False, clang_flags=["-fno-inline"],
+             desc="fastcgi::non_blocking_read_record on an arbitrary read cache: never reads outside cache_, cursors never cross, a record is consumed only when fully present (same obligation as C01.d, claimed here for memory safety)",
+             tiers=T(quick=dict(split=[[0, 2]], unwind=20, timeout=900, bounds="16-byte cache with arbitrary bytes and arbitrary cursors; 0 or 2 bytes already in body_"))))
 PROPS["C02"]["obligations"].append(
         dict(id="C02.c", harness="C01_fastcgi.cpp", entry="h_c02c_fcgi_safety", ctors=False, clang_flags=["-fno-inline"],
              drop=["_ZN6cppcms4impl10string_map3addEPKcS3_"], roots=["verif_env_add"], models=["stubs_c02.c"],
